@@ -6,6 +6,7 @@ mod c16;
 mod sim;
 mod hist;
 mod adl;
+mod rtx;
 mod c01;
 mod c05;
 mod c07;
